@@ -32,6 +32,7 @@ FAMILIES = {
     "samecols": dict(seed=133, n=800, gen="Shapes2", opts={"only_shapes": ["samecols_semi"]}),
     "limit0": dict(seed=137, n=500, gen="Shapes2", opts={"only_shapes": ["limit_zero"]}),
     "spilljoin": dict(seed=141, n=16, gen="Shapes2", opts={"only_shapes": ["spill_join"]}),
+    "limoff": dict(seed=143, n=600, gen="Shapes2", opts={"only_shapes": ["limit_unordered"]}),
     "unionjoin": dict(seed=131, n=600, gen="Shapes2", opts={"only_shapes": ["union_join_str"]}),
     "setop3": dict(seed=124, n=1500, gen="Shapes2", opts={"only_shapes": ["setop_chain"]}),
     "aggwide": dict(seed=125, n=1000, gen="Shapes2", opts={"only_shapes": ["agg_wide"]}),
